@@ -1,1 +1,89 @@
-From VP Require Import Base.Util Base.Dim Base.Val Model.CollectQ Model.Gate.
+(* C04 -- the dimension gate admits exactly dimensionally equivalent arguments and results.
+   Statements about Model/Gate.v (tied to assert_equivalent_dimension and the validate_* decorators by the
+   correspondence check of harness/props/c04.py).  Only `exact` here. *)
+From Coq Require Import List QArith ZArith Bool NArith.
+From VP Require Import Base.Util Base.Dim Base.Val Model.CollectQ Model.Gate Proofs.DimProofs Proofs.GateProofs.
+Import ListNotations.
+
+(* the argument passes exactly when the declaration is a wildcard (zero-valued unit expression / AnyDimension),
+   or the value is zero / +-oo / NaN, or the dimensions are equivalent once angle is erased on both sides *)
+Theorem C04_gate1_pass_iff : forall a x,
+  gate1 a x = None <->
+  xside x = SWild \/
+  exists xd, xside x = SD xd /\ (aside a = SWild \/ exists ad, aside a = SD ad /\ equiv_mod_angle ad xd).
+Proof. exact gate1_pass_iff. Qed.
+Print Assumptions C04_gate1_pass_iff.
+
+(* dimensionless actual (a bare number) against a dimensional declaration: type error, and only then *)
+Theorem C04_gate1_typeerr_iff : forall a x ad xd, xside x = SD xd -> aside a = SD ad ->
+  (gate1 a x = Some E_TYPE <-> dimensionless (erase_angle ad) = true /\ dimensionless (erase_angle xd) = false).
+Proof. exact gate1_typeerr_iff. Qed.
+Print Assumptions C04_gate1_typeerr_iff.
+
+(* a quantity of another dimension: units error, and only then *)
+Theorem C04_gate1_unitserr_iff : forall a x ad xd, xside x = SD xd -> aside a = SD ad ->
+  (gate1 a x = Some E_UNITS <->
+   ~ equiv_mod_angle ad xd /\ (dimensionless (erase_angle ad) = false \/ dimensionless (erase_angle xd) = true)).
+Proof. exact gate1_unitserr_iff. Qed.
+Print Assumptions C04_gate1_unitserr_iff.
+
+Theorem C04_gate1_partition : forall a x ad xd, xside x = SD xd -> aside a = SD ad ->
+  gate1 a x = None \/ gate1 a x = Some E_TYPE \/ gate1 a x = Some E_UNITS.
+Proof. exact gate1_partition. Qed.
+Print Assumptions C04_gate1_partition.
+
+Theorem C04_bare_number_refused : forall v xd,
+  is_number v = true -> is_any v = false -> dimensionless (erase_angle xd) = false ->
+  gate1 (GExpr (QNum v)) (GDim xd) = Some E_TYPE.
+Proof. exact gate1_bare_number_refused. Qed.
+Print Assumptions C04_bare_number_refused.
+
+Theorem C04_any_value_passes : forall v d x, is_any v = true -> (forall k, xside x <> SErr k) ->
+  gate1 (GExpr (QQty v d)) x = None /\ gate1 (GExpr (QNum v)) x = None.
+Proof. exact gate1_any_value_passes. Qed.
+Print Assumptions C04_any_value_passes.
+
+(* the verdict never depends on the magnitude ... *)
+Theorem C04_magnitude_irrelevant : forall v v' d x,
+  is_number v = true -> is_number v' = true -> is_any v = false -> is_any v' = false ->
+  gate1 (GExpr (QQty v d)) x = gate1 (GExpr (QQty v' d)) x.
+Proof. exact gate1_magnitude_irrelevant. Qed.
+Print Assumptions C04_magnitude_irrelevant.
+
+(* ... nor on a unit prefix *)
+Theorem C04_prefix_irrelevant : forall p q d x, wf_dim d -> qzero p = false -> qzero q = false ->
+  gate1 (GExpr (QMul [QPrefix (VQ p); QQty (VQ q) d])) x = gate1 (GExpr (QQty (VQ q) d)) x.
+Proof. exact gate1_prefix_irrelevant. Qed.
+Print Assumptions C04_prefix_irrelevant.
+
+(* each element of a sequence is checked; the first failing element decides *)
+Theorem C04_seq_pass_iff : forall l x, gate (GSeq l) (SOne x) = None <-> Forall (fun a => gate1 a x = None) l.
+Proof. exact gate_seq_pass_iff. Qed.
+Print Assumptions C04_seq_pass_iff.
+
+Theorem C04_seq_first_failure : forall l x k, gate (GSeq l) (SOne x) = Some k ->
+  exists l1 a l2, l = l1 ++ a :: l2 /\ Forall (fun b => gate1 b x = None) l1 /\ gate1 a x = Some k.
+Proof. exact gate_seq_first_failure. Qed.
+Print Assumptions C04_seq_first_failure.
+
+(* a guarded function runs and returns only if every guarded argument and the result pass *)
+Theorem C04_runs_only_if_all_pass : forall params guards out pos kw ret,
+  guarded_call params guards out pos kw ret = None ->
+  exists bound, bind params pos kw = Some bound /\
+    (forall p s, In p params -> lookup p guards = Some s -> exists v, lookup p bound = Some v /\ gate v s = None) /\
+    (forall s, out = Some s -> gate ret s = None).
+Proof. exact guarded_call_runs_only_if_all_pass. Qed.
+Print Assumptions C04_runs_only_if_all_pass.
+
+Theorem C04_output_gate : forall params guards s pos kw ret k,
+  gate ret s = Some k -> guarded_call params guards (Some s) pos kw ret <> None.
+Proof. exact output_gate. Qed.
+Print Assumptions C04_output_gate.
+
+(* positional versus keyword passing: calls that bind the same values get the same verdict *)
+Theorem C04_bind_style_irrelevant : forall params guards out pos kw pos' kw' ret b b',
+  bind params pos kw = Some b -> bind params pos' kw' = Some b' ->
+  (forall p, In p params -> lookup p b = lookup p b') ->
+  guarded_call params guards out pos kw ret = guarded_call params guards out pos' kw' ret.
+Proof. exact bind_style_irrelevant. Qed.
+Print Assumptions C04_bind_style_irrelevant.
